@@ -62,7 +62,8 @@ type Run struct {
 func Start(id, level string) *Run {
 	// the checks allocate many short-lived objects on all cores: a small heap makes the GC run
 	// continuously and serialises the workers
-	debug.SetGCPercent(1600)
+	debug.SetGCPercent(400)
+	debug.SetMemoryLimit(12 << 30)
 	r := &Run{ID: id, Level: level, Tier: "quick", start: time.Now(),
 		viol: map[string][]Violation{}, violCount: map[string]int{}}
 	if t := os.Getenv("VERIF_TIER"); t == "quick" || t == "thorough" {
